@@ -362,6 +362,24 @@ def cancelExc (t : Tk) : Option Exc :=
   else if t.interrupted then some .interrupted
   else none
 
+/-- the end of `start_connection` once the socket is connected: attach it, leave the interrupt block,
+`finally`, and — closed in the same turn the phase completed — do not reopen -/
+def startOkPath (s : State) : State :=
+  let s := aStartFutCb (aStartAttach s)
+  if s.st = .closed then
+    let s := cleanup s
+    aStartDone (.err (wrap s .interrupted)) s
+  else aSockOpened s
+
+/-- the end of `finish_connection` once hello/login are accepted: `_async_schedule_keep_alive`, leave
+the interrupt block, `finally`, closed-check, CONNECTED -/
+def helloOkPath (s : State) : State :=
+  let s := aFinFutCb (aKeepalive s)
+  if s.st = .closed then
+    let s := cleanup s
+    aFinDone (.err (wrap s .interrupted)) s
+  else aConnected s
+
 def stepStart (s : State) : State :=
   match s.start with
   | .awaitResolve =>
@@ -381,13 +399,7 @@ def stepStart (s : State) : State :=
       else match s.sockRes with
         | .none => s
         | .fail => failStart s (.api .socket)
-        | .ok =>
-          let s := aStartFutCb (aStartAttach s)
-          -- closed in the same turn the phase completed: do not reopen
-          if s.st = .closed then
-            let s := cleanup s
-            aStartDone (.err (wrap s .interrupted)) s
-          else aSockOpened s
+        | .ok => startOkPath s
   | _ => s
 
 /-- `_connect_hello_login` up to its await -/
@@ -429,13 +441,7 @@ def stepFinish (s : State) : State :=
       | .ok =>
         match judge s.login s.collected with
         | some ex => failFinish (aHelloFinally s) ex
-        | none =>
-          -- `_async_schedule_keep_alive`, leave the interrupt block, `finally`
-          let s := aFinFutCb (aKeepalive (aHelloFinally s))
-          if s.st = .closed then
-            let s := cleanup s
-            aFinDone (.err (wrap s .interrupted)) s
-          else aConnected s
+        | none => helloOkPath (aHelloFinally s)
       | .tmo => failFinish (aHelloFinally s) (.api .timeout)
       | .failed e => failFinish (aHelloFinally s) (.api e)
       | _ => s
